@@ -16,4 +16,14 @@ let () =
   reg "bsecrets" (fun a -> match a with [ps] ->
     vout vints (Model.builder_secrets (List.map as_ints (as_list ps))) | _ -> raise (Bad "arity"));
   reg "bparse" (fun a -> match a with [xs] ->
-    vout (fun ps -> L (List.map vints ps)) (Model.parse_secrets (as_ints xs)) | _ -> raise (Bad "arity"))
+    vout (fun ps -> L (List.map vints ps)) (Model.parse_secrets (as_ints xs)) | _ -> raise (Bad "arity"));
+  reg "builder_rt" (fun a -> match a with [ps] ->
+    let parts = List.map as_ints (as_list ps) in
+    (match Model.builder_secrets parts with
+     | Model.Ok s ->
+       (match Model.parse_secrets s with
+        | Model.Ok back ->
+          let same = (List.length back = List.length parts) && List.for_all2 (fun p q -> List.length p = List.length q && List.for_all2 Big_int_Z.eq_big_int p q) back parts in
+          L [A "Ok"; L [vints (List.map (fun p -> Big_int_Z.big_int_of_int (List.length p)) back); vbool same]]
+        | _ -> A "ParseErr")
+     | _ -> A "BuildErr") | _ -> raise (Bad "arity"))
